@@ -519,12 +519,21 @@ def check_semantic_dtype(ctx: Ctx):
         ctx.undecided("R05.6.floor", f, f.node, "floor:R05.6", f"{n} evaluated paths, confirmed floor is 3")
 
 
+def _run_rule(ctx, name, fn):
+    """a sub-rule that cannot be evaluated is recorded as undecided; the remaining rules still run"""
+    try:
+        return fn(ctx)
+    except (Undecided, AnchorMissing) as e:
+        ctx.undecided(name, None, None, f"{name}:analysis", f"{type(e).__name__}: {e}")
+        return 0
+
+
 def check(ctx: Ctx):
-    check_stateless(ctx)
-    check_dispatch(ctx)
-    check_library_calls(ctx)
+    _run_rule(ctx, "check_stateless", check_stateless)
+    _run_rule(ctx, "check_dispatch", check_dispatch)
+    _run_rule(ctx, "check_library_calls", check_library_calls)
     fitting_uint_table(ctx)
-    check_negative_guard(ctx)
+    _run_rule(ctx, "check_negative_guard", check_negative_guard)
     try:
         check_semantic_dtype(ctx)
     except (Undecided, AnchorMissing) as e:
